@@ -28,6 +28,7 @@ ASSUMPTIONS = c03.ASSUMPTIONS + [
 ]
 REQUIRED = ["answered_true", "answered_false", "nc_involved_true", "acl_with_shadow",
             "acl_without_shadow", "acl_attribution_not_adjacent"]
+LONG_SUB = [1, 2, 4, 5, 3, 9]  # two independent (cover, covered) pairs + two more: longer lists
 SKIP_ACL = [None, ["nc_wildcard"], ["addrgroup", "nc_wildcard"]]
 
 
@@ -60,6 +61,8 @@ def units(tier, seed):
         for first in range(n):
             out.append(dict(kind="acls", platform=plat, first=first))
         out.append(dict(kind="acls_dup", platform=plat))
+        for first in LONG_SUB:
+            out.append(dict(kind="acls_long", platform=plat, first=first))
     return out
 
 
@@ -79,6 +82,8 @@ def run_unit(unit, ctx):
             ctx.sample("pair", P.describe_pair(top, bot, plat))
     elif unit["kind"] == "acls":
         _acls(unit, ctx)
+    elif unit["kind"] == "acls_long":
+        _acls_long(unit, ctx)
     else:
         _acls_dup(unit, ctx)
 
@@ -195,6 +200,20 @@ def _acls(unit, ctx):
             for skip in SKIP_ACL:
                 _check_acl(plat, [texts[i] for i in idx], skip, ctx, [rules[i] for i in idx])
     ctx.sample("acl", dict(platform=plat, lines=[texts[i] for i in idx]))
+
+
+def _acls_long(unit, ctx):
+    """Every ordered selection of 4..5 (thorough: 6) of the 6 entries in LONG_SUB."""
+    plat = unit["platform"]
+    entries = acl_entries(ctx.seed)
+    texts = [e.text(plat) for e in entries]
+    rules = [e.rule() for e in entries]
+    rest = [i for i in LONG_SUB if i != unit["first"]]
+    for n in ((3, 4) if ctx.tier == "quick" else (3, 4, 5)):
+        for combo in permutations(rest, n):
+            idx = (unit["first"],) + combo
+            _check_acl(plat, [texts[i] for i in idx], None, ctx, [rules[i] for i in idx])
+    ctx.sample("acl_long", dict(platform=plat, lines=[texts[i] for i in idx]))
 
 
 def _acls_dup(unit, ctx):
